@@ -294,7 +294,14 @@ func (t *tailBuffer) String() string { t.mu.Lock(); defer t.mu.Unlock(); return 
 
 type Rand struct{ s uint64 }
 
-func NewRand(seed uint64) *Rand { return &Rand{s: seed*0x9E3779B97F4A7C15 + 0x1234567} }
+// NewRand scrambles the seed before using it as the state: the state advances by a constant per draw, so states
+// derived linearly from the seed would make the streams of different seeds shifted copies of one another.
+func NewRand(seed uint64) *Rand {
+	z := seed + 0x9E3779B97F4A7C15
+	z = (z ^ (z >> 30)) * 0xBF58476D1CE4E5B9
+	z = (z ^ (z >> 27)) * 0x94D049BB133111EB
+	return &Rand{s: z ^ (z >> 31)}
+}
 func (r *Rand) U64() uint64 {
 	r.s += 0x9E3779B97F4A7C15
 	z := r.s
